@@ -95,23 +95,39 @@ func (a *Analysis) entryContexts(fn *ssa.Function) []*Ctx {
 			out = append(out, a.rejectCtxs(kind, g, lc)...)
 		}
 	}
-	switch fn {
-	case a.NME:
+	switch {
+	case a.isAnchor(fn, a.NME):
 		withSizes("L", a.Gate1)
-	case a.NM:
+	case a.isAnchor(fn, a.NM):
 		withSizes("W", a.Gate2)
-	case a.CM:
+	case a.isAnchor(fn, a.CM):
 		withSizes("N", a.Gate3)
-	case a.IMV:
+	case fn == a.IMV:
 		// the gate lives in CheckMnemonic, which is inlined: same contexts
 		withSizes("N", a.Gate3)
-	case a.Str:
+	case fn == a.Str:
 		for _, lc := range lcs {
 			lc := lc
 			out = append(out, &Ctx{Name: "lang=" + lc.Name, Lang: &lc.V})
 		}
 	default:
-		// other exported functions: language classes if they take a Language, else one context
+		// other exported functions: language classes if they take a Language, else one context.
+		// Calls of the size-gated entry points are not entered: those are proved panic-free for
+		// every argument in their own contexts, which is all a caller needs.
+		defer func() {
+			mod := map[*ssa.Function]bool{}
+			for _, body := range []*ssa.Function{a.NME, a.NM, a.CM} {
+				for _, f := range a.API[body] {
+					mod[f] = true
+				}
+			}
+			if a.IMV != nil {
+				mod[a.IMV] = true
+			}
+			for _, c := range out {
+				c.Modular = mod
+			}
+		}()
 		takesLang := false
 		for _, p := range fn.Params {
 			if a.isLang(p.Type()) {
